@@ -128,6 +128,24 @@ v('C07', 'fire', KA, 'cho_solve((L, True), HP', 'cho_solve((L, False), HP')
 v('C07', 'fire', KA, 'S = HP @ H.T + R', 'S = HP @ H.T')
 v('C07 C19', 'fire', KA, 'K = cho_solve((L, True), HP, overwrite_b=True).T', 'K = cho_solve((L, True), P, overwrite_b=True).T')
 v('C07', 'silent', KA, 'U = np.eye(len(x)) - K.dot(H)', 'U = np.identity(len(x)) - K @ H')
+# round-6 seeds C07 (K R K^T with R replaced by its diagonal) and C08 (absolute-threshold clean-up)
+v('C07', 'fire', KA, 'K.dot(R).dot(K.T)', '(K * np.diag(R)).dot(K.T)', 'round-6 seed: assumes R diagonal')
+v('C07', 'fire', KA, 'K.dot(R).dot(K.T)', 'K.dot(np.diag(np.diag(R))).dot(K.T)', 'assumes R diagonal')
+_VL_RET = '    return H[:n, :n], H[:n, n:] @ H[:n, :n].T\n'
+v('C08', 'fire', KA, _VL_RET,
+  '    Phi = H[:n, :n]\n    Qd = H[:n, n:] @ Phi.T\n    Qd = 0.5 * (Qd + Qd.T)\n'
+  '    Qd[np.abs(Qd) < np.finfo(float).eps] = 0\n    return Phi, Qd\n', 'round-6 seed: absolute threshold on Qd')
+v('C08', 'silent', KA, _VL_RET,
+  '    Phi = H[:n, :n]\n    Qd = H[:n, n:] @ Phi.T\n    Qd = 0.5 * (Qd + Qd.T)\n    return Phi, Qd\n',
+  'symmetrised noise integral')
+v('C08', 'silent', KA, _VL_RET,
+  '    Phi = H[:n, :n]\n    Qd = H[:n, n:] @ Phi.T\n    Qd = 0.5 * (Qd + Qd)\n    return Phi, Qd.T\n',
+  'transposed product: the noise integral is symmetric')
+v('C08', 'fire', KA, _VL_RET,
+  '    Phi = H[:n, :n]\n    Qd = H[:n, n:] @ Phi.T\n    Qd = Qd + Qd.T\n    return Phi, Qd\n',
+  'doubled')
+v('C08', 'fire', KA, _VL_RET,
+  '    Phi = H[:n, :n]\n    Qd = H[:n, n:] @ Phi\n    return Phi, Qd\n', 'missing transpose')
 v('C07 C19', 'fire', KA, '    return (x + K @ (z - H @ x), U.dot(P).dot(U.T) + K.dot(R).dot(K.T),', '    x += K.dot(e)\n    return (x, U.dot(P).dot(U.T) + K.dot(R).dot(K.T),', 'seeded C07 round 5: posterior mean accumulated into the caller\'s prior')
 v('C07', 'silent', KA, '    return (x + K @ (z - H @ x), U.dot(P).dot(U.T) + K.dot(R).dot(K.T),', '    x = x + K.dot(e)\n    return (x, U.dot(P).dot(U.T) + K.dot(R).dot(K.T),', 're-binding the local is not a write into the argument')
 v('C11', 'fire', 'filters.py', '    trajectory.alt += error_nav.down', '    trajectory.alt -= error_nav.down', 'compensated altitude with the wrong sign')
